@@ -115,6 +115,9 @@ def run_c12(run_, rng, tier, exe):
     scns = []
     for _ in range(200 if q else 3000):
         sec = scen.section(rng, "t", kind="change", fmt=rng.choice(["unified", "context"]), nonl=False)
+        if rng.random() < 0.2:
+            # a diff without context whose first hunk puts lines in front of line 1 (old range 0,0 although the old file is there)
+            sec = scen.top_section(rng, "t", "unified", "add-top")
         names = dict(old="o/" + rng.choice(["one", "d/one"]), new="n/" + rng.choice(["two", "d/two"]), index="i/" + rng.choice(["three", "d/three"]))
         # only the two header names (their first occurrences), never the same bytes inside hunk lines
         text = sec["text"].replace(b"a/t", ("x/" + names["old"]).encode(), 1).replace(b"b/t", ("x/" + names["new"]).encode(), 1)
@@ -123,6 +126,10 @@ def run_c12(run_, rng, tier, exe):
             names["new"] = names["old"]
             text = sec["text"].replace(b"a/t", ("x/" + names["old"]).encode(), 1).replace(b"b/t", ("x/" + names["old"]).encode(), 1)
         text = ("Index: x/%s\n" % names["index"]).encode() + text
+        if rng.random() < 0.2 and b"\r" not in text and b"\\ No newline" not in text:
+            # the patch went through a mailer or a checkout that writes CRLF; the names carry no time stamp (diff --label, git style)
+            text = re.sub(rb"\t2024-01-0[12] 00:00:00\.000000000 \+0000", b"", text).replace(b"\n", b"\r\n")
+            sec = dict(sec, a=[(t_, "C" if nl_ == "L" else nl_) for t_, nl_ in sec["a"]])      # (and so did the file)
         tree = {}
         present = [k for k in ("old", "new", "index") if rng.random() < 0.6]
         if names["new"] == names["old"]:
@@ -682,6 +689,35 @@ def run_c14(run_, rng, tier, exe):
     _, b3, m3 = l2_family(run_, exe, scns, judge, cls=lambda s, r: "L2 %s %s" % (s["fmt"], s["mode"]))
     for i, d, rep in b3:
         rep["expected"] = scns[i]["want"].decode("latin-1")
+    # -D under a converting mode: whatever the merge puts out (directives, the line break it has to add after an unterminated last
+    # line) goes through the same conversion as every other line
+    dsc = []
+    for _ in range(80 if q else 1200):
+        a = [(gen.rand_text(rng, True).replace("#", "h") + str(i_), rng.choice("LLC")) for i_ in range(rng.randint(1, 6))]
+        ops = [(" ", l) for l in a]
+        i_ = len(ops) - 1 if rng.random() < 0.7 else rng.randrange(len(ops))
+        t_, nl_ = ops[i_][1]
+        na, nb = rng.random() < 0.5, rng.random() < 0.5
+        ops[i_] = ("-", (t_, "N" if (na and i_ == len(ops) - 1) else nl_)); ops.insert(i_ + 1, ("+", (t_ + "2", "N" if (nb and i_ == len(ops) - 1) else nl_)))
+        ops = applyc.fix_nonl(ops)
+        a2 = [l for o_, l in ops if o_ != "+"]
+        fmt = rng.choice(["unified", "context", "normal"])
+        hs = gen.hunks_from_ops(ops, rng.choice([0, 1, 3]) if fmt != "normal" else 0)
+        text = emit.emit_unified("a/f", "b/f", hs) if fmt == "unified" else emit.emit_context("a/f", "b/f", hs) if fmt == "context" else b"Index: b/f\n" + emit.emit_normal(ops)
+        mode = rng.choice(["crlf", "crlf", "lf", "native"])
+        dsc.append(dict(tree={"f": ("R", 0o644, emit.file_bytes(a2)), "p.diff": ("R", 0o644, text)}, opts={"p": 1, "i": "p.diff", "nl": mode, "F": 0, "D": "SYM"}, umask=0o022, fmt=fmt, mode=mode))
+    def judge_dsc(s, r):
+        got = r["tree"].get("f")
+        if r["exit"] != 0 or got is None:
+            return "exit %d applying a %s diff with -D under --newline-output=%s" % (r["exit"], s["fmt"], s["mode"])
+        d_ = got[2]
+        if s["mode"] == "crlf" and re.search(rb"(?<!\r)\n", d_):
+            return "-D under --newline-output=crlf: a line of the output ends in a bare LF"
+        if s["mode"] in ("lf", "native") and b"\r\n" in d_:
+            return "-D under --newline-output=%s: a line of the output ends in CRLF" % s["mode"]
+        return None
+    _, b4, m4 = l2_family(run_, exe, dsc, judge_dsc, cls=lambda s, r: "L2 -D %s %s" % (s["fmt"], s["mode"]))
+    b3 += b4; m3 += m4
     return bad + b3, mism + m3
 
 
@@ -726,6 +762,9 @@ def define_drifted(run_, rng, n):
         if impl2[i] != model2[i]:
             mism.append((i, "L1 APPLY -D (drifted)", dict(case=with_d[i], impl=impl2[i], model=model2[i])))
         rd, rn = applyc.parse_result(impl2[i]), applyc.parse_result(impl2[nd_ + i])
+        if rd is None and rn is not None:
+            bad.append((i, "the same call that succeeds without -D fails with -D: " + impl2[i][:80], dict(case=with_d[i], impl=impl2[i], without_D=impl2[nd_ + i][:300])))
+            continue
         if rd is None or rn is None:
             continue
         def tl(b_):
@@ -763,6 +802,12 @@ def run_c20(run_, rng, tier, exe):
         if not hs:
             continue
         fam.append(dict(a=a, b=b, hs=hs))
+    # without context: lines put in front of line 1, lines taken off the top, of a file that stays
+    for _ in range(200 if q else 3000):
+        sec = scen.top_section(rng, "t", "unified", rng.choice(["add-top", "del-top"]))
+        if any("#" in t for t, nl in sec["a"] + sec["b"]):
+            continue
+        fam.append(dict(a=sec["a"], b=sec["b"], hs=sec["hs"]))
     cases = [applyc.apply_case(applyc.opt_str(D=hx("SYM"), F=0), "unified", c["a"], c["hs"]) for c in fam]
     impl, model = run_both(cases)
     bad, mism = [], []
@@ -853,9 +898,11 @@ def run_c20(run_, rng, tier, exe):
         wsc.append(s0)
 
     def judge_wsc(s, r):
-        cur = tree_no_meta(r["tree"]).get(s["secs"][0]["path"])
+        cur = tree_no_meta(r["tree"]).get(s.get("at") or s["secs"][0]["path"])
         if r["exit"] != 0:
             return "-D %s with a patch that fits: exit status %d" % (s["sym"], r["exit"])
+        if cur is None:
+            return "-D %s: the file the patch writes (%s) is not there" % (s["sym"], s.get("at") or s["secs"][0]["path"])
         ls_ = cur[2].decode("latin-1").split("\n")
         if ls_ and ls_[-1] == "":
             ls_.pop()
@@ -868,6 +915,14 @@ def run_c20(run_, rng, tier, exe):
         if norm(new) != norm(s["B"]):
             return "-D %s%s: evaluated with the symbol defined the output is not the new version" % (s["sym"], " -l" if s["opts"].get("l") else "")
         return None
+    for _ in range(40 if q else 600):
+        sym = rng.choice(["SYM", "V2"])
+        sec = scen.section(rng, rng.choice(["dr", "drd/dr"]), kind=rng.choice(["rename", "copy"]), fmt="git", nonl=False)
+        if b"#" in sec["text"] or not sec["hs"]:
+            continue
+        s0 = scen.base_scenario(rng, [sec], opts={"D": sym})
+        s0["A"] = [t for t, nl in sec["a"]]; s0["B"] = [t for t, nl in sec["b"]]; s0["sym"] = sym; s0["at"] = sec["newpath"]
+        wsc.append(s0)
     _, bws, mws = l2_family(run_, exe, wsc, judge_wsc, cls=lambda s, r: "-D %s%s exit %d" % ("sym with digits" if any(ch.isdigit() for ch in s["sym"]) else "sym", " -l" if s["opts"].get("l") else "", r["exit"]))
     bad += bws; mism += mws
     # the Gallina evaluator and the Python one must agree on every output seen (the oracle of this check is the specification
